@@ -474,6 +474,22 @@ func (k *scoreKit) compareScore(rule string, fn *types.Func, ref []refLeaf) (hit
 			}
 		}
 	}
+	type embObj struct{ isNil, invalid *ir.Term }
+	var embeddedObjs []embObj
+	if recv := fn.Type().(*types.Signature).Recv(); recv != nil {
+		for _, l := range k.levels {
+			if !types.Identical(recv.Type(), l.Ptr()) {
+				continue
+			}
+			obj := ir.Param(0)
+			for lv := l; lv.Lower != nil && lv.Embedded != nil; lv = lv.Lower {
+				obj = ir.Field(obj, lv.Embedded)
+				if ge := lv.Lower.Method("GetError"); ge != nil {
+					embeddedObjs = append(embeddedObjs, embObj{ir.Bin("==", obj, nilOf(lv.Lower.Ptr())), ir.Bin("!=", ir.Call(ge, obj), nilOf(errorType))})
+				}
+			}
+		}
+	}
 	type pl struct {
 		guards []*ir.Term
 		ret    *ir.Term
@@ -495,6 +511,20 @@ func (k *scoreKit) compareScore(rule string, fn *types.Func, ref []refLeaf) (hit
 				if g.Key() == recvNil.Key() {
 					g = recvInvalid
 				} else if g.Key() == ir.NotCond(recvNil).Key() {
+					continue
+				}
+			}
+			// the same for the embedded lower-level objects (p0.Base == nil after GetError() was tested: GetError of
+			// the lower level reports an error for a nil receiver, and valid-chain makes it part of the own level's)
+			if dropped := false; true {
+				for _, eo := range embeddedObjs {
+					if g.Key() == eo.isNil.Key() {
+						g = eo.invalid
+					} else if g.Key() == ir.NotCond(eo.isNil).Key() {
+						dropped = true
+					}
+				}
+				if dropped {
 					continue
 				}
 			}
